@@ -329,3 +329,21 @@ Theorem C01_shared_result_cell_refuted :
   exists evs i, ~ (exists rest, dones_of i evs = reads_of i (xrun_cell evs) ++ rest).
 Proof. exact shared_cell_refuted. Qed.
 Print Assumptions C01_shared_result_cell_refuted.
+
+(* ===================== wave 12: the statistics update inside the radio loop never raises ===================== *)
+
+(* RadioLinkStatistics.update runs in the radio thread after every acknowledged transmission, outside any try/except.
+   With HEAD's guard structure (the report — and its two divisions — only under `if ack.data:`, after the counters
+   were incremented) no sequence of calls (packet dequeued or not, any ack payload incl. the EMPTY one, reporting
+   period elapsed or not) makes a division raise. *)
+Theorem C01_link_statistics_never_raise : forall calls,
+  exists s1, stats_run stats_update calls stats0 = Some s1.
+Proof. exact stats_never_raise0. Qed.
+Print Assumptions C01_link_statistics_never_raise.
+
+(* Reporting for every elapsed period, also on an ack without payload: the first such call divides by zero
+   (downlink counter still 0) — the radio thread would die. *)
+Theorem C01_unguarded_statistics_report_refuted :
+  exists calls, stats_run stats_update_unguarded calls stats0 = None.
+Proof. exact stats_unguarded_refuted. Qed.
+Print Assumptions C01_unguarded_statistics_report_refuted.
